@@ -60,6 +60,7 @@ class Program:
         self.go = {}                 # (k, idx) -> tokens
         self.wa = {}
         self.events = []             # (kind, section index, call index or None, message)
+        self.not_run = set()         # (section, call) left out after a trap/hang of the same argument class
         self.wa_time = 0.0
 
 
@@ -124,7 +125,13 @@ def run_program(ctx, harness, prog, deadline):
             continue
         culprit = order[0]
         prog.events.append((kind, k, culprit, status[:300]))
-        skip.setdefault(k, set()).update(i for i in range(len(prog.secs[k].calls)) if i <= culprit)
+        sk = skip.setdefault(k, set())
+        sk.update(i for i in range(len(prog.secs[k].calls)) if i <= culprit)
+        # calls of the same argument class would most likely stop the program again (one rerun each): leave them out
+        cls = arg_class(prog.secs[k], prog.secs[k].calls[culprit])
+        same = [i for i in range(culprit + 1, len(prog.secs[k].calls)) if arg_class(prog.secs[k], prog.secs[k].calls[i]) == cls]
+        sk.update(same)
+        prog.not_run.update((k, i) for i in same)
         alive = alive[pos:]
     else:
         if alive:
@@ -260,6 +267,23 @@ def outcome_class(sec, go, wa):
     return "value"
 
 
+def custom_class(sec, args, go, wa):
+    """root-cause specific classes, decided by PREDICTING the divergent output from the suspected cause"""
+    key = sec.key
+    if wa is None or len(go) != len(wa):
+        return None
+    if re.match(r"strconv\.(Append)?Quote", key):
+        # DEL written as \u007f instead of \x7f (older Go): undoing exactly that must give Go's answer
+        g, w = unhex(go[0]), unhex(wa[0])
+        if g is not None and w is not None and w != g and w.replace(b"\\u007f", b"\\x7f") == g:
+            return "del-escaped-as-u007f"
+    if key in ("strconv.Unquote", "strconv.QuotedPrefix", "strconv.UnquoteChar") and go[-1] != "nil" and wa[-1] == "nil":
+        txt = args[0]
+        if re.search(rb"\\u[dD][89a-fA-F][0-9a-fA-F]{2}|\\U0000[dD][89a-fA-F][0-9a-fA-F]{2}", txt):
+            return "surrogate-escape-accepted"
+    return None
+
+
 def show_args(sec, args):
     out = []
     for kind, v in zip(sec.kinds, args):
@@ -381,6 +405,9 @@ def run(ctx):
                 if go is None:
                     continue
                 wa = p.wa.get((k, idx))
+                if (k, idx) in p.not_run:
+                    dist["not_run_after_trap"] = dist.get("not_run_after_trap", 0) + 1
+                    continue
                 dist["calls"] += 1
                 pk["calls"] += 1
                 ac = arg_class(s, args)
@@ -406,7 +433,8 @@ def run(ctx):
                 else:
                     oc = outcome_class(s, go, wa)
                     what = "%s%s: Wa returns %s; Go returns %s" % (s.key, show_args(s, args), show_toks(s, wa), show_toks(s, go))
-                key = "%s:%s:%s" % (s.key, oc, ac)
+                cc = custom_class(s, args, go, wa)
+                key = "%s:%s" % (s.key, cc) if cc else "%s:%s:%s" % (s.key, oc, ac)
                 keys.setdefault(key, []).append(what)
                 ctx.violation(key, what, {"function": s.key, "args": show_args(s, args), "go": go, "wa": wa, "driver_statements": s.stmts})
     if dev:
